@@ -55,6 +55,10 @@ def canonical_order(site, xs):
         return sorted(xs, key=lambda e: handler_key(e[0] if isinstance(e, tuple) else e))
     if site == "candidates":
         return sorted(xs, key=lambda c: handler_key(c.handler))
+    if site == "candidate-set":
+        # the iteration over the set of handlers that builds the candidate list (the list itself is ordered again at
+        # "candidates"): fixed, so that the sequence of executed lines is reproducible for the schedule explorer
+        return sorted(xs, key=handler_key)
     return xs
 
 
